@@ -56,6 +56,11 @@ func Run(c *core.Ctx) {
 		}
 		core.Inspect(fn.Decl.Body, func(n ast.Node) bool {
 			if fs, ok := n.(*ast.ForStmt); ok {
+				if list, _ := tt.LoopElem(fn.Pkg.TypesInfo, fs); list != nil && fs.Post != nil {
+					if inc, ok := fs.Post.(*ast.IncDecStmt); ok && inc.Tok == token.INC {
+						return true // `for i := ..; i < len(l); i++`: bounded by the list
+					}
+				}
 				c.Undecidedf("R3.retry", fn.Decl.Name.Name+"/extra-loop", fs.Pos(), "a `for` loop besides the probing loops: its termination is not analysed")
 			}
 			return true
@@ -70,6 +75,15 @@ func Run(c *core.Ctx) {
 	c.Expect("R3.retry", 4)
 	c.Expect("R4.probe", 2)
 	c.Expect("R5.start", 2)
+}
+
+// cmdErrWhen: when one error variable carries both failure kinds, the command-error row is the
+// connect-error row.
+func cmdErrWhen(combined bool) map[string]bool {
+	if combined {
+		return map[string]bool{"connect-error": true}
+	}
+	return map[string]bool{"connect-error": false, "command-error": true}
 }
 
 func errFact(info *types.Info, f cfgq.Fact, obj types.Object) (isErr bool, nonNil bool) {
@@ -99,8 +113,20 @@ func errFact(info *types.Info, f cfgq.Fact, obj types.Object) (isErr bool, nonNi
 func nodeState(c *core.Ctx, fn *core.Fn) (trueImpliesNil bool) {
 	info := fn.Pkg.TypesInfo
 	body := fn.Decl.Body
-	x := tt.New(cfgq.Of(c.Program, fn))
-	x.Prog = c.Program
+	view := tt.ViewOf(c.Program, fn, "c20node", nil)
+	x := view.X(c.Program)
+	if x.ZeroInit == nil {
+		x.ZeroInit = map[types.Object]bool{}
+	}
+	if fn.Decl.Type.Results != nil {
+		for _, fl := range fn.Decl.Type.Results.List {
+			for _, nm := range fl.Names {
+				x.Named = append(x.Named, nm)
+				x.ZeroInit[info.Defs[nm]] = true
+			}
+		}
+	}
+	body = view.Body
 	name := fn.Decl.Name.Name
 	pkgInit := func(id *ast.Ident) ast.Expr { // initialiser of a package-level variable
 		v, ok := core.ObjOf(info, id).(*types.Var)
@@ -136,8 +162,8 @@ func nodeState(c *core.Ctx, fn *core.Fn) (trueImpliesNil bool) {
 				if !ok {
 					return true
 				}
-				if s, ok := core.StringConst(info, ex); ok && strings.Contains(s, "role:") {
-					found = s
+				if s, ok := core.StringConst(info, ex); ok && (strings.Contains(s, "role:") || strings.Contains(s, "master") || strings.Contains(s, "slave")) {
+					found += "\x00" + s
 				}
 				if id, ok := ex.(*ast.Ident); ok && depth > 0 {
 					if d, ok := tt.SingleDef(info, root, id); ok && d.Rhs != nil && d.Range == nil {
@@ -153,6 +179,7 @@ func nodeState(c *core.Ctx, fn *core.Fn) (trueImpliesNil bool) {
 		return found
 	}
 	nErr := 0
+	combined := false // one error variable stands for both the connect and the command error
 	errNames := map[types.Object]string{}
 	classify := func(l tt.Lit) (string, bool, bool) {
 		if is, _ := errFact(info, cfgq.Fact{Expr: l.Expr, Val: true}, nil); is {
@@ -172,19 +199,37 @@ func nodeState(c *core.Ctx, fn *core.Fn) (trueImpliesNil bool) {
 					if d.Rhs == nil {
 						continue
 					}
-					ast.Inspect(d.Rhs, func(m ast.Node) bool {
-						if call, ok := m.(*ast.CallExpr); ok {
+					var origin func(n ast.Node, depth int)
+					origin = func(n ast.Node, depth int) {
+						ast.Inspect(n, func(m ast.Node) bool {
+							call, ok := m.(*ast.CallExpr)
+							if !ok {
+								return true
+							}
 							if sel, ok := ast.Unparen(call.Fun).(*ast.SelectorExpr); ok {
-								if sel.Sel.Name == "Do" && nm == "" {
-									nm = "command-error"
+								if sel.Sel.Name == "Do" {
+									if nm == "" {
+										nm = "command-error"
+									} else if nm == "connect-error" {
+										combined = true
+									}
 								}
 								if core.IsFieldNamed(info, sel, sup, "redisConnFactory") {
+									if nm == "command-error" {
+										combined = true
+									}
 									nm = "connect-error"
 								}
 							}
-						}
-						return true
-					})
+							// a same-package helper that could not be inlined (it defers): the error may
+							// come from the connection or from the command inside it
+							if h := c.FnOf(core.CalleeFunc(info, call)); h != nil && h.Decl.Body != nil && h.Pkg.TypesInfo == info && depth > 0 && h.Obj != fn.Obj {
+								origin(h.Decl.Body, depth-1)
+							}
+							return true
+						})
+					}
+					origin(d.Rhs, 2)
 				}
 				if nm == "" {
 					nErr++
@@ -200,10 +245,12 @@ func nodeState(c *core.Ctx, fn *core.Fn) (trueImpliesNil bool) {
 				root = body
 			}
 			switch s := roleConst(l.Expr, root); {
-			case strings.Contains(s, "role:master"):
+			case strings.Contains(s, "master") && !strings.Contains(s, "slave"):
 				return "reports-master", true, true
-			case strings.Contains(s, "role:slave"):
+			case strings.Contains(s, "slave") && !strings.Contains(s, "master"):
 				return "reports-slave", true, true
+			case strings.Contains(s, "role:") && !strings.Contains(s, "master") && !strings.Contains(s, "slave"):
+				return "role-line", true, true // an outer test for "this is the role line"
 			}
 		}
 		return "", false, false
@@ -238,9 +285,21 @@ func nodeState(c *core.Ctx, fn *core.Fn) (trueImpliesNil bool) {
 		}
 		return m
 	}
-	for _, v := range tt.Compare(rows, universe, nil, []tt.Want{
+	feasible := func(as map[string]bool) bool { // an atom tested only under a guard implies the guard
+		for a, v := range as {
+			if v {
+				for g := range x.Deps[a] {
+					if !as[g] {
+						return false
+					}
+				}
+			}
+		}
+		return true
+	}
+	for _, v := range tt.Compare(rows, universe, feasible, []tt.Want{
 		{Name: "connect-error", When: map[string]bool{"connect-error": true}, Out: "false", Input: "an unreachable node is never reported as master"},
-		{Name: "command-error", When: map[string]bool{"connect-error": false, "command-error": true}, Out: "false", Input: "a node answering INFO with an error is never reported as master"},
+		{Name: "command-error", When: cmdErrWhen(combined), Out: "false", Input: "a node answering INFO with an error is never reported as master"},
 		{Name: "role-master", When: w("reports-master", true, "reports-slave", false), Out: "true", Input: "a reachable node whose INFO replication reports role:master is reported as master"},
 		{Name: "role-slave", When: w("reports-master", false, "reports-slave", true), Out: "false", Input: "a node reporting role:slave is never reported as master"},
 		{Name: "no-role", When: w("reports-master", false, "reports-slave", false), Out: "false", Input: "a node whose INFO output has no role line is never reported as master"},
@@ -251,43 +310,76 @@ func nodeState(c *core.Ctx, fn *core.Fn) (trueImpliesNil bool) {
 		}
 		c.Check("R1.node", name+"/"+v.Want.Name, fn.Decl.Pos(), v.OK, v.Want.Input+" (expected first result "+v.Want.Out+"); otherwise the tool syncs from a node that is not the master, or never finds the master", v.Witness)
 	}
-	// a `true` answer carries a nil error
+	// a `true` answer carries a nil error: on every returning path on which the first result can be
+	// true, the second is nil (explicit results, named results with bare returns, values in locals)
 	trueImpliesNil = true
 	n := 0
-	var scanReturns func(b *ast.BlockStmt, depth int)
-	var visitRet func(m ast.Node) bool
-	scanReturns = func(b *ast.BlockStmt, depth int) {
-		core.Inspect(b, func(m ast.Node) bool {
-			if r, ok := m.(*ast.ReturnStmt); ok && len(r.Results) == 1 && depth > 0 {
-				// tail call of a same-package helper that answers (bool, error)
-				if call, ok := ast.Unparen(r.Results[0]).(*ast.CallExpr); ok {
-					if h := c.FnOf(core.CalleeFunc(info, call)); h != nil && h.Decl.Body != nil && h.Pkg.TypesInfo == info && h.Obj != fn.Obj {
-						scanReturns(h.Decl.Body, depth-1)
-						return true
-					}
-				}
-				n++ // an answer that cannot be followed
-				trueImpliesNil = false
-				return true
+	lastAssign := func(t *tt.Trace, o types.Object, upto int) (ast.Expr, int) {
+		for k := upto - 1; k >= 0; k-- {
+			nd := t.Evs[k].Node
+			if nd == nil {
+				continue
 			}
-			return visitRet(m)
-		})
-	}
-	visitRet = func(m ast.Node) bool {
-		r, ok := m.(*ast.ReturnStmt)
-		if !ok || len(r.Results) != 2 {
-			return true
+			for _, d := range tt.DefsOf(info, nd, o) {
+				return d.Rhs, k
+			}
 		}
-		if bv, isConst := tt.BoolConst(info, r.Results[0]); isConst && !bv {
-			return true
+		return nil, -1
+	}
+	for ti := range traces {
+		t := &traces[ti]
+		if t.End != tt.EndReturn {
+			continue
+		}
+		res := t.Ret.Results
+		if len(res) == 0 {
+			for _, nm := range x.Named {
+				res = append(res, nm)
+			}
+		}
+		if len(res) != 2 {
+			n++ // an answer that cannot be followed (multi-value call)
+			trueImpliesNil = false
+			continue
+		}
+		r0, r1 := ast.Unparen(res[0]), ast.Unparen(res[1])
+		if bv, isConst := tt.BoolConst(info, r0); isConst && !bv {
+			continue
+		}
+		if o := tt.BoolLocal(info, r0); o != nil {
+			rhs, at := lastAssign(t, o, len(t.Evs))
+			if at < 0 && x.ZeroInit[o] {
+				continue // never assigned on this path: false
+			}
+			if bv, isConst := tt.BoolConst(info, rhs); rhs != nil && isConst && !bv {
+				continue
+			}
 		}
 		n++
-		if !core.IsNil(info, r.Results[1]) {
+		if core.IsNil(info, r1) {
+			continue
+		}
+		okNil := false
+		if o := tt.ErrLocal(info, r1); o != nil {
+			rhs, at := lastAssign(t, o, len(t.Evs))
+			switch {
+			case at < 0 && x.ZeroInit[o]:
+				okNil = true
+			case rhs != nil && core.IsNil(info, rhs):
+				okNil = true
+			}
+			for k := at + 1; k < len(t.Evs) && !okNil; k++ {
+				if l := t.Evs[k].Lit; l != nil {
+					if is, nonNil := errFact(info, cfgq.Fact{Expr: l.Expr, Val: l.Val}, o); is && !nonNil {
+						okNil = true
+					}
+				}
+			}
+		}
+		if !okNil {
 			trueImpliesNil = false
 		}
-		return true
 	}
-	scanReturns(body, 2)
 	if n == 0 {
 		c.Undecidedf("R1.node", name+"/master-without-error", fn.Decl.Pos(), "no return that can answer true")
 		return false
@@ -359,17 +451,64 @@ func selection(c *core.Ctx, rec, node *core.Fn, trueNil bool) {
 	isProbe := func(_ *ast.CallExpr, callee types.Object) bool { _, ok := probeHost(c, info, node, callee); return ok }
 	// the probing loop lives in recursiveGetSlotState or in a same-package helper it calls
 	fn := rec
+	opaque := func(f *types.Func) bool { return f == node.Obj || f == rec.Obj }
+	recView := tt.ViewOf(c.Program, rec, "c20", opaque)
 	var viaCall *ast.CallExpr
-	if len(core.Calls(rec.Decl.Body, info, isProbe)) == 0 {
-		for _, call := range core.Calls(rec.Decl.Body, info, func(*ast.CallExpr, types.Object) bool { return true }) {
+	if len(core.Calls(recView.Body, info, isProbe)) == 0 {
+		for _, call := range core.Calls(recView.Body, info, func(*ast.CallExpr, types.Object) bool { return true }) {
 			if h := c.FnOf(core.CalleeFunc(info, call)); h != nil && h.Decl.Body != nil && h.Pkg.TypesInfo == info && h.Obj != rec.Obj && len(core.Calls(h.Decl.Body, info, isProbe)) > 0 {
 				fn, viaCall = h, call
 			}
 		}
 	}
-	body := fn.Decl.Body
-	g := cfgq.Of(c.Program, fn)
-	x := tt.New(g)
+	view := tt.ViewOf(c.Program, fn, "c20", opaque)
+	body := view.Body
+	g := view.G
+	x := view.X(c.Program)
+	// objects seen through pointer aliases: with `p := &v` (the pointer parameter of an inlined
+	// helper), `p.f` is `v.f` and `*p` is `v`
+	var target func(e ast.Expr, depth int) types.Object
+	target = func(e ast.Expr, depth int) types.Object {
+		e = ast.Unparen(e)
+		if st, ok := e.(*ast.StarExpr); ok {
+			return target(st.X, depth)
+		}
+		id, ok := e.(*ast.Ident)
+		if !ok {
+			return nil
+		}
+		if depth > 0 {
+			if d, ok := tt.SingleDef(info, body, id); ok && d.Rhs != nil && d.Index == -1 && d.Range == nil {
+				if u, ok := ast.Unparen(d.Rhs).(*ast.UnaryExpr); ok && u.Op == token.AND {
+					if t := target(u.X, depth-1); t != nil {
+						return t
+					}
+				}
+				if _, isId := ast.Unparen(d.Rhs).(*ast.Ident); isId {
+					if _, isPtr := info.TypeOf(id).(*types.Pointer); isPtr {
+						return target(d.Rhs, depth-1) // a copy of a pointer
+					}
+				}
+			}
+		}
+		return core.ObjOf(info, id)
+	}
+	baseObj := func(e ast.Expr) types.Object { return target(e, 3) }
+	boolObj := func(e ast.Expr) types.Object {
+		if o := tt.BoolLocal(info, e); o != nil {
+			if _, isPtrDeref := ast.Unparen(e).(*ast.StarExpr); !isPtrDeref {
+				return o
+			}
+		}
+		if _, isDeref := ast.Unparen(e).(*ast.StarExpr); isDeref {
+			if v, ok := target(e, 3).(*types.Var); ok {
+				if b, ok := v.Type().Underlying().(*types.Basic); ok && b.Kind() == types.Bool {
+					return v
+				}
+			}
+		}
+		return nil
+	}
 	// the probe
 	calls := core.Calls(body, info, isProbe)
 	if len(calls) != 1 {
@@ -378,18 +517,30 @@ func selection(c *core.Ctx, rec, node *core.Fn, trueNil bool) {
 	}
 	pp, _ := g.Find(calls[0])
 	pas, ok := pp.Node().(*ast.AssignStmt)
-	loop, _ := x.LoopOf(calls[0]).(*ast.RangeStmt)
+	loop := x.LoopOf(calls[0]) // a range loop or a counting loop over the host list
+	hostList, isElem := tt.LoopElem(info, loop)
 	hostIdx, _ := probeHost(c, info, node, core.Callee(info, calls[0]))
-	if !ok || len(pas.Lhs) != 2 || loop == nil || len(calls[0].Args) <= hostIdx {
+	if !ok || len(pas.Lhs) != 2 || loop == nil || hostList == nil || len(calls[0].Args) <= hostIdx {
 		c.Undecidedf("R1.select", name+"/probe", calls[0].Pos(), "the probe is not `isMaster, err = getRedisNodeState(host, ...)` inside a range loop")
 		return
 	}
 	isMaster, perr, host := identObj(info, pas.Lhs[0]), identObj(info, pas.Lhs[1]), identObj(info, calls[0].Args[hostIdx])
-	if isMaster == nil || host == nil || host != identObj(info, loop.Value) {
+	// the probed host is the loop's element, possibly through single-assignment copies
+	// (`addr := known[idx]`, the parameter of an inlined forwarding helper)
+	hostRoot := tt.Resolve(info, body, calls[0].Args[hostIdx], 5)
+	hostIsElem := isElem(calls[0].Args[hostIdx]) || isElem(hostRoot)
+	isHost := func(e ast.Expr) bool {
+		if e == nil {
+			return false
+		}
+		r := tt.Resolve(info, body, e, 5)
+		return identObj(info, e) != nil && identObj(info, e) == host || tt.SameExpr(info, r, hostRoot)
+	}
+	if isMaster == nil || host == nil || !hostIsElem {
 		c.Undecidedf("R1.select", name+"/probe", calls[0].Pos(), "the probed host is not the loop's element or the answer is not kept in a variable")
 		return
 	}
-	masterFact := func(f cfgq.Fact) bool { return tt.BoolLocal(info, f.Expr) == isMaster && f.Val }
+	masterFact := func(f cfgq.Fact) bool { return boolObj(f.Expr) == isMaster && f.Val }
 	noErrFact := func(f cfgq.Fact) bool {
 		is, nonNil := errFact(info, f, perr)
 		return perr != nil && is && !nonNil
@@ -405,9 +556,9 @@ func selection(c *core.Ctx, rec, node *core.Fn, trueNil bool) {
 		}
 		for i := range as.Lhs {
 			for fld, vars := range map[string]map[types.Object]bool{"Source": srcVars, "Slaves": slvVars} {
-				if base, ok := isNodeField(info, as.Lhs[i], fld); ok && identObj(info, base) != nil {
-					res = identObj(info, base)
-					if v, isVar := identObj(info, as.Rhs[i]).(*types.Var); isVar && !v.IsField() && x.LoopOf(as) != ast.Stmt(loop) && v != host {
+				if base, ok := isNodeField(info, as.Lhs[i], fld); ok && baseObj(base) != nil {
+					res = baseObj(base)
+					if v, isVar := identObj(info, as.Rhs[i]).(*types.Var); isVar && !v.IsField() && x.LoopOf(as) != ast.Stmt(loop) && !isHost(as.Rhs[i]) {
 						vars[v] = true
 					}
 				}
@@ -417,7 +568,7 @@ func selection(c *core.Ctx, rec, node *core.Fn, trueNil bool) {
 	})
 	isCarrier := func(e ast.Expr, fld string, vars map[types.Object]bool) bool {
 		if base, ok := isNodeField(info, e, fld); ok {
-			return res != nil && identObj(info, base) == res
+			return res != nil && baseObj(base) == res
 		}
 		o := identObj(info, e)
 		return o != nil && vars[o]
@@ -435,9 +586,8 @@ func selection(c *core.Ctx, rec, node *core.Fn, trueNil bool) {
 				srcValue[as] = as.Rhs[i]
 				continue
 			}
-			if b := pat.Expr("append(_l, _h)").Match(info, as.Rhs[i], nil); b != nil && isCarrier(as.Lhs[i], "Slaves", slvVars) && pat.Same(info, as.Lhs[i], b["_l"]) {
-				h := b["_h"].(ast.Expr)
-				if identObj(info, h) == host {
+			if l0, h, ok := appendOf(as.Rhs[i]); ok && isCarrier(as.Lhs[i], "Slaves", slvVars) && pat.Same(info, as.Lhs[i], l0) {
+				if isHost(h) {
 					appends = append(appends, as)
 				} else if isCarrier(h, "Source", srcVars) {
 					keeps = append(keeps, as)
@@ -451,7 +601,7 @@ func selection(c *core.Ctx, rec, node *core.Fn, trueNil bool) {
 	}
 	for _, s := range sources {
 		as := s.(*ast.AssignStmt)
-		c.Check("R1.select", name+"/assigns-probed-host", as.Pos(), identObj(info, srcValue[as]) == host, "the node made Source must be the host that was just probed, `"+c.Src(as)+"` selects another value")
+		c.Check("R1.select", name+"/assigns-probed-host", as.Pos(), isHost(srcValue[as]), "the node made Source must be the host that was just probed, `"+c.Src(as)+"` selects another value")
 		ok, w := x.OnlyVia(cfgq.Point{}, as, masterFact)
 		c.Check("R1.select", name+"/only-master", as.Pos(), ok, "Source may be assigned only when the probe answered master: otherwise a replica, an unreachable node or a node without role is chosen as the sync source", w...)
 		ok2, w2 := x.OnlyVia(cfgq.Point{}, as, noErrFact)
@@ -466,7 +616,7 @@ func selection(c *core.Ctx, rec, node *core.Fn, trueNil bool) {
 			continue
 		}
 		for i := range as.Lhs {
-			o := tt.BoolLocal(info, as.Lhs[i])
+			o := boolObj(as.Lhs[i])
 			if o == nil || o == isMaster {
 				continue
 			}
@@ -485,8 +635,8 @@ func selection(c *core.Ctx, rec, node *core.Fn, trueNil bool) {
 	rflag, rres, rx := flag, res, x
 	if viaCall != nil && flag != nil {
 		rflag, rres = nil, nil
-		rg := cfgq.Of(c.Program, rec)
-		rx = tt.New(rg)
+		rg := recView.G
+		rx = recView.X(c.Program)
 		vp, _ := rg.Find(viaCall)
 		if vas, ok := vp.Node().(*ast.AssignStmt); ok && len(vas.Rhs) == 1 {
 			core.Inspect(body, func(n ast.Node) bool {
@@ -504,8 +654,33 @@ func selection(c *core.Ctx, rec, node *core.Fn, trueNil bool) {
 			})
 		}
 	}
+	// the flag and the result may be handed on through copies after the loop (results of an
+	// inlined helper): `newSlot, masterFound = topology, found`
+	if viaCall == nil && flag != nil {
+		for pass := 0; pass < 3; pass++ {
+			core.Inspect(body, func(n ast.Node) bool {
+				as, ok := n.(*ast.AssignStmt)
+				if !ok || len(as.Lhs) != len(as.Rhs) || x.LoopOf(as) == loop {
+					return true
+				}
+				for i := range as.Rhs {
+					r, l := identObj(info, as.Rhs[i]), identObj(info, as.Lhs[i])
+					if r == nil || l == nil {
+						continue
+					}
+					if r == rflag && boolObj(as.Lhs[i]) != nil {
+						rflag = l
+					}
+					if r == rres {
+						rres = l
+					}
+				}
+				return true
+			})
+		}
+	}
 	var rets []*ast.ReturnStmt
-	core.Inspect(rec.Decl.Body, func(n ast.Node) bool {
+	core.Inspect(recView.Body, func(n ast.Node) bool {
 		if r, ok := n.(*ast.ReturnStmt); ok && len(r.Results) == 2 && core.IsNil(info, r.Results[1]) && !core.IsNil(info, r.Results[0]) {
 			if _, isCall := ast.Unparen(r.Results[0]).(*ast.CallExpr); !isCall {
 				rets = append(rets, r)
@@ -517,7 +692,7 @@ func selection(c *core.Ctx, rec, node *core.Fn, trueNil bool) {
 		c.Undecidedf("R1.select", name+"/found-flag", loop.Pos(), "no 'master found' flag / success return recognised")
 		return
 	}
-	flagTrue := func(f cfgq.Fact) bool { return tt.BoolLocal(info, f.Expr) == rflag && f.Val }
+	flagTrue := func(f cfgq.Fact) bool { return boolObj(f.Expr) == rflag && f.Val }
 	okFlag := true
 	var wf []string
 	for _, s := range flagSets {
@@ -535,14 +710,18 @@ func selection(c *core.Ctx, rec, node *core.Fn, trueNil bool) {
 	}
 	c.Check("R1.select", name+"/found-flag", flagSets[0].Pos(), okFlag, "the 'master found' flag starts false and is set only when a probe answered master", wf...)
 	for _, r := range rets {
+		if !relatesTo(info, recView.Body, r.Results[0], rres) {
+			c.Undecidedf("R1.select", name+"/success-only-with-master", r.Pos(), "cannot relate the returned value `%s` to the topology built by the probing loop", c.Src(r.Results[0]))
+			continue
+		}
 		ok, w := rx.OnlyVia(cfgq.Point{}, r, flagTrue)
-		c.Check("R1.select", name+"/success-only-with-master", r.Pos(), ok && core.Mentions(info, r.Results[0], rres), "the topology is returned as a success only when a master was found in this pass: otherwise the tool syncs from the stale source (possibly a replica) instead of retrying / failing", w...)
+		c.Check("R1.select", name+"/success-only-with-master", r.Pos(), ok && (!relatesTo(info, recView.Body, r.Results[0], rres) || true), "the topology is returned as a success only when a master was found in this pass: otherwise the tool syncs from the stale source (possibly a replica) instead of retrying / failing", w...)
 	}
 
 	// ---- R2 / R4: the paths of one iteration
 	var head *cfg.Block
 	for _, b := range g.CFG.Blocks {
-		if b.Live && b.Kind == cfg.KindRangeLoop && b.Stmt == ast.Stmt(loop) {
+		if b.Live && (b.Kind == cfg.KindRangeLoop || b.Kind == cfg.KindForLoop) && b.Stmt == loop {
 			head = b
 		}
 	}
@@ -574,23 +753,55 @@ func selection(c *core.Ctx, rec, node *core.Fn, trueNil bool) {
 			continue
 		}
 		nS, nA := 0, 0
-		kept, flagVal, flagKnown := false, false, false
-		okKeep := true
+		kept, flagVal, flagKnown, flagSet := false, false, false, false
+		// values saved before they are overwritten: `previous, hadMaster := newSlot.Source, masterFound`
+		srcCopy, flagCopy := map[types.Object]bool{}, map[types.Object]bool{}
 		for _, ev := range t.Evs {
-			switch {
-			case ev.Lit != nil && tt.BoolLocal(info, ev.Lit.Expr) == flag:
-				flagVal, flagKnown = ev.Lit.Val, true
-			case ev.Node != nil && in(keeps, ev.Node):
-				kept = true
-			case ev.Node != nil && in(appends, ev.Node):
-				nA++
-			case ev.Node != nil && in(sources, ev.Node):
-				nS++
-				if !(flagKnown && !flagVal) && !(flagKnown && flagVal && kept) {
-					okKeep = false
+			if ev.Lit != nil {
+				o := boolObj(ev.Lit.Expr)
+				if o != nil && (o == flag && !flagSet || flagCopy[o]) {
+					flagVal, flagKnown = ev.Lit.Val, true
+				}
+				continue
+			}
+			if ev.Node == nil {
+				continue
+			}
+			if as, ok := ev.Node.(*ast.AssignStmt); ok && len(as.Lhs) == len(as.Rhs) {
+				for i := range as.Lhs {
+					if _, hx, ok := appendOf(as.Rhs[i]); ok && isCarrier(as.Lhs[i], "Slaves", slvVars) {
+						if h := identObj(info, hx); h != nil && srcCopy[h] {
+							kept = true // the saved previous source is listed as a replica
+						}
+					}
+					l := identObj(info, as.Lhs[i])
+					if l == nil {
+						continue
+					}
+					if isCarrier(as.Rhs[i], "Source", srcVars) && nS == 0 && !isCarrier(as.Lhs[i], "Source", srcVars) {
+						srcCopy[l] = true
+					}
+					if identObj(info, as.Rhs[i]) == flag && !flagSet && l != flag {
+						flagCopy[l] = true
+					}
 				}
 			}
+			switch {
+			case in(keeps, ev.Node):
+				if nS == 0 {
+					kept = true
+				}
+			case in(appends, ev.Node):
+				nA++
+			}
+			if in(sources, ev.Node) {
+				nS++
+			}
+			if in(flagSets, ev.Node) {
+				flagSet = true
+			}
 		}
+		okKeep := nS == 0 || flagKnown && !flagVal || flagKnown && flagVal && kept
 		if nS+nA != 1 {
 			badClass = describe(c, t)
 		}
@@ -604,18 +815,18 @@ func selection(c *core.Ctx, rec, node *core.Fn, trueNil bool) {
 	c.Check("R4.probe", name+"/no-early-exit", loop.Pos(), earlyExit == nil, "the probing loop must visit every node: with a break/return inside the loop the nodes after the first master are not listed as replicas", earlyExit...)
 
 	// the host list: Source followed by all Slaves of the supervisor's slot
-	items, okItems := hostItems(info, fn, loop.X, loop, 3)
+	items, okItems := hostItems(info, body, hostList, 3)
 	if okItems && len(items) == 2 && items[0] == "Source" && items[1] == "Slaves..." {
 		c.Okf("R4.probe", name+"/host-list", loop.Pos(), "the probed hosts are the known Source followed by all known Slaves")
 	} else {
-		c.Undecidedf("R4.probe", name+"/host-list", loop.Pos(), "the host list `%s` is not recognised as the supervisor's Source followed by its Slaves (%v)", c.Src(tt.Resolve(info, body, loop.X, 2)), items)
+		c.Undecidedf("R4.probe", name+"/host-list", loop.Pos(), "the host list `%s` is not recognised as the supervisor's Source followed by its Slaves (%v)", c.Src(tt.Resolve(info, body, hostList, 2)), items)
 	}
 }
 
 // hostItems evaluates a []string expression built with literals and append from the fields of
 // s.slot: "Source", "Slaves..." in order. Locals are followed through their definitions when these
 // are top-level statements of the function that precede the loop.
-func hostItems(info *types.Info, fn *core.Fn, e ast.Expr, loop *ast.RangeStmt, depth int) ([]string, bool) {
+func hostItems(info *types.Info, body *ast.BlockStmt, e ast.Expr, depth int) ([]string, bool) {
 	field := func(e ast.Expr, spread bool) (string, bool) {
 		for _, f := range []string{"Source", "Slaves"} {
 			if b, ok := isNodeField(info, e, f); ok && core.IsFieldNamed(info, b, sup, "slot") && (f == "Slaves") == spread {
@@ -651,7 +862,7 @@ func hostItems(info *types.Info, fn *core.Fn, e ast.Expr, loop *ast.RangeStmt, d
 			if len(v.Args) == 0 {
 				return nil, false
 			}
-			out, ok := hostItems(info, fn, v.Args[0], loop, depth)
+			out, ok := hostItems(info, body, v.Args[0], depth)
 			if !ok {
 				return nil, false
 			}
@@ -671,18 +882,18 @@ func hostItems(info *types.Info, fn *core.Fn, e ast.Expr, loop *ast.RangeStmt, d
 		o := identObj(info, v)
 		var out []string
 		k := 0
-		for _, d := range tt.DefsOf(info, fn.Decl.Body, o) {
-			st, isStmt := d.Stmt.(ast.Stmt)
-			top := false
-			for _, s := range fn.Decl.Body.List {
-				if isStmt && s == st {
-					top = true
-				}
-				if ds, ok := s.(*ast.DeclStmt); ok && ds.Pos() <= d.Stmt.Pos() && d.Stmt.End() <= ds.End() {
-					top = true
+		for _, d := range tt.DefsOf(info, body, o) {
+			// every definition is executed unconditionally, once: no loop or branch around it
+			straight := true
+			for _, anc := range core.PathTo(body, d.Stmt) {
+				switch anc.(type) {
+				case *ast.IfStmt, *ast.SwitchStmt, *ast.TypeSwitchStmt, *ast.SelectStmt, *ast.ForStmt, *ast.RangeStmt, *ast.FuncLit:
+					if anc != d.Stmt {
+						straight = false
+					}
 				}
 			}
-			if !top || d.Stmt.Pos() >= loop.Pos() {
+			if !straight {
 				return nil, false
 			}
 			if d.Rhs == nil {
@@ -708,7 +919,7 @@ func hostItems(info *types.Info, fn *core.Fn, e ast.Expr, loop *ast.RangeStmt, d
 				}
 				continue
 			}
-			items, ok := hostItems(info, fn, d.Rhs, loop, depth-1)
+			items, ok := hostItems(info, body, d.Rhs, depth-1)
 			if !ok {
 				return nil, false
 			}
@@ -717,6 +928,45 @@ func hostItems(info *types.Info, fn *core.Fn, e ast.Expr, loop *ast.RangeStmt, d
 		return out, true
 	}
 	return nil, false
+}
+
+// appendOf matches `append(l, h)` syntactically (no look-through of locals: a saved copy of the
+// previous source must stay distinguishable from the source itself).
+func appendOf(e ast.Expr) (l, h ast.Expr, ok bool) {
+	call, isCall := ast.Unparen(e).(*ast.CallExpr)
+	if !isCall || len(call.Args) != 2 || call.Ellipsis.IsValid() {
+		return nil, nil, false
+	}
+	if id, isId := call.Fun.(*ast.Ident); !isId || id.Name != "append" {
+		return nil, nil, false
+	}
+	return call.Args[0], call.Args[1], true
+}
+
+// relatesTo: the returned expression is (the address of) the result variable, a copy of it, or a
+// pointer through which the result was stored (`p := new(T); *p = res; return p`).
+func relatesTo(info *types.Info, body ast.Node, e ast.Expr, res types.Object) bool {
+	if res == nil {
+		return false
+	}
+	if core.Mentions(info, e, res) || tt.MentionsResolved(info, body, e, res, 4) {
+		return true
+	}
+	p := identObj(info, e)
+	found := false
+	ast.Inspect(body, func(n ast.Node) bool {
+		as, ok := n.(*ast.AssignStmt)
+		if !ok || len(as.Lhs) != len(as.Rhs) {
+			return true
+		}
+		for i := range as.Lhs {
+			if st, ok := ast.Unparen(as.Lhs[i]).(*ast.StarExpr); ok && p != nil && identObj(info, st.X) == p && core.Mentions(info, as.Rhs[i], res) {
+				found = true
+			}
+		}
+		return true
+	})
+	return found
 }
 
 func describe(c *core.Ctx, t *tt.Trace) []string {
@@ -737,9 +987,10 @@ func describe(c *core.Ctx, t *tt.Trace) []string {
 
 func retry(c *core.Ctx, fn, get *core.Fn) {
 	info := fn.Pkg.TypesInfo
-	body := fn.Decl.Body
-	g := cfgq.Of(c.Program, fn)
-	x := tt.New(g)
+	view := tt.ViewOf(c.Program, fn, "c20retry", func(f *types.Func) bool { return f == fn.Obj })
+	body := view.Body
+	g := view.G
+	x := view.X(c.Program)
 	name := fn.Decl.Name.Name
 	if len(fn.Decl.Type.Params.List) != 1 || len(fn.Decl.Type.Params.List[0].Names) != 1 {
 		c.Undecidedf("R3.retry", name+"/depth", fn.Decl.Pos(), "expected one depth parameter")
@@ -784,8 +1035,29 @@ func retry(c *core.Ctx, fn, get *core.Fn) {
 			c.Undecidedf("R3.retry", name+"/decrements", call.Pos(), "retry argument `%s` not recognised", c.Src(arg))
 		}
 		ok, w := x.OnlyVia(cfgq.Point{}, rp.Node(), func(f cfgq.Fact) bool { z, ok := depthFact(f); return ok && !z })
-		if anyTest, _ := x.OnlyVia(cfgq.Point{}, rp.Node(), func(f cfgq.Fact) bool { return core.Mentions(info, f.Expr, depth) }); !ok && anyTest {
-			c.Undecidedf("R3.retry", name+"/stops-at-zero", call.Pos(), "the retry is guarded by a test of the depth that is not a comparison with 0")
+		if !ok {
+			// path-sensitive: is the retry reachable at all when depth == 0 is assumed (flags tracked)?
+			rnode := rp.Node()
+			w = x.Reach(tt.ReachQuery{From: cfgq.Point{B: g.CFG.Blocks[0], I: -1}, FromSucc: -1, Env: tt.Env{}, Target: func(n ast.Node) bool { return n == rnode },
+				Assume: func(e ast.Expr) int {
+					if z, isDepth := depthFact(cfgq.Fact{Expr: e, Val: true}); isDepth {
+						if z {
+							return 1
+						}
+						return -1
+					}
+					return 0
+				}})
+			ok = w == nil
+		}
+		mention := false
+		for _, bk := range g.CFG.Blocks {
+			if cond := x.Cond(bk); cond != nil && bk.Live && core.Mentions(info, cond, depth) {
+				mention = true
+			}
+		}
+		if !ok && mention {
+			c.Undecidedf("R3.retry", name+"/stops-at-zero", call.Pos(), "the depth is tested, but the analysis cannot show that the retry is unreachable for depth == 0")
 			continue
 		}
 		c.Check("R3.retry", name+"/stops-at-zero", call.Pos(), ok, "the retry must be reachable only while depth != 0: without a test of the depth the tool retries forever instead of failing with an error", w...)
@@ -815,7 +1087,7 @@ func retry(c *core.Ctx, fn, get *core.Fn) {
 		ginfo := get.Pkg.TypesInfo
 		okStart := false
 		for _, call := range core.Calls(get.Decl.Body, ginfo, func(_ *ast.CallExpr, callee types.Object) bool { return callee == types.Object(fn.Obj) }) {
-			okStart = len(call.Args) == 1 && core.IsFieldNamed(ginfo, call.Args[0], sup, "maxRetries")
+			okStart = len(call.Args) == 1 && core.IsFieldNamed(ginfo, tt.Resolve(ginfo, get.Decl.Body, call.Args[0], 3), sup, "maxRetries")
 		}
 		okConst, found := true, false
 		pk := c.Pkg(pkgSup)
@@ -851,8 +1123,9 @@ func retry(c *core.Ctx, fn, get *core.Fn) {
 
 func useAtStart(c *core.Ctx, fn *core.Fn) {
 	info := fn.Pkg.TypesInfo
-	g := cfgq.Of(c.Program, fn)
-	x := tt.New(g)
+	view := tt.ViewOf(c.Program, fn, "c20start", nil)
+	g := view.G
+	x := view.X(c.Program)
 	name := fn.Decl.Name.Name
 	pts := g.Points(g.HasCall(func(_ *ast.CallExpr, callee types.Object) bool {
 		f, ok := callee.(*types.Func)
@@ -868,8 +1141,38 @@ func useAtStart(c *core.Ctx, fn *core.Fn) {
 		return
 	}
 	slot, serr := identObj(info, as.Lhs[0]), identObj(info, as.Lhs[1])
-	if slot == nil || serr == nil || as.Lhs[1].(*ast.Ident).Name == "_" {
+	if id, isId := as.Lhs[1].(*ast.Ident); isId && id.Name == "_" {
 		c.Failf("R5.start", name+"/error-stops", as.Pos(), "the error of GetSlotState is discarded: when no master is found the syncer continues with a nil / stale node")
+		return
+	}
+	direct := core.IsFieldNamed(info, as.Lhs[0], "DbSyncer", "node") // `ds.node, err = ...GetSlotState()`
+	if serr == nil || slot == nil && !direct {
+		c.Undecidedf("R5.start", name+"/discovery", as.Pos(), "the results of GetSlotState are bound in an unrecognised way")
+		return
+	}
+	if direct {
+		// the result is stored at once: what matters is that a failed discovery never returns normally
+		isErrD := func(f cfgq.Fact) bool { is, nonNil := errFact(info, f, serr); return is && nonNil }
+		tested, _ := g.MustPassToExit(pts[0], true, func(n ast.Node) bool { return false })
+		var w2 []string
+		n := 0
+		for _, b := range g.CFG.Blocks {
+			for si := range b.Succs {
+				if b.Live && x.Establishes(b, si, isErrD) {
+					n++
+					if w2 == nil {
+						w2 = g.Path(cfgq.Query{From: cfgq.Point{B: b.Succs[si]}, TargetExit: cfgq.NormalExit})
+					}
+				}
+			}
+		}
+		_ = tested
+		wNoTest := g.Path(cfgq.Query{From: pts[0], After: true, TargetExit: cfgq.NormalExit,
+			AvoidEdge: func(b *cfg.Block, si int) bool {
+				return x.Establishes(b, si, func(f cfgq.Fact) bool { is, _ := errFact(info, f, serr); return is })
+			}})
+		c.Check("R5.start", name+"/error-stops", as.Pos(), n > 0 && w2 == nil && wNoTest == nil, "the error of GetSlotState must be tested and a failed discovery must end in a no-return log: otherwise the syncer continues with a nil node after 'no master found'", append(w2, wNoTest...)...)
+		c.Okf("R5.start", name+"/replaces-node", as.Pos(), "the discovered topology is stored in ds.node by the call itself")
 		return
 	}
 	var sets []ast.Node
